@@ -142,7 +142,7 @@ argument — is the plain-string resolution: `normpath_view` below; `canon_path`
 halves together. -/
 theorem canon_path_escaping (puny : Str → Str) (quoted sf : Bool) (p : Parsed) :
     ∃ cp, pathView (canonComps puny quoted sf p).path = pathView cp ∧
-      cp = canonPath p.path (!p.query.isEmpty || truthy (if sf then none else some p.fragment)) ∧
+      cp = canonPath p.path (hasMore puny sf p) ∧
       pathView (unquotePath p.path) = pathView p.path := by
   refine ⟨_, ?_, rfl, path_unquote_view _⟩
   simp only [canonComps]
@@ -199,11 +199,11 @@ theorem canon_path (puny : Str → Str) (quoted sf : Bool) (p : Parsed) (h : abs
   exact normpath_view _ _ h
 
 /-- the root case, explicitly: a path that resolves to the root becomes `"/"` when a query or
-a fragment follows and `""` otherwise, in both modes -/
+a fragment follows — or when the host ends with a white-space character and nothing else
+would follow it (`hasMore`, FX-C02-16f182c) — and `""` otherwise, in both modes -/
 theorem canon_path_root (puny : Str → Str) (quoted sf : Bool) (p : Parsed)
     (h : absPath p.path = true) (hroot : (pathView p.path).1 = []) :
-    (canonComps puny quoted sf p).path =
-      if (!p.query.isEmpty || truthy (if sf then none else some p.fragment)) then ['/'] else [] := by
+    (canonComps puny quoted sf p).path = if hasMore puny sf p then ['/'] else [] := by
   have hv : (segView (unquotePath p.path)).1 = [] := by
     have e := byteView_eq _ (dotHonest_segments (unquotePath_idem p.path))
     rw [← path_unquote_view, pathView_eq_byteView, e] at hroot
@@ -211,8 +211,22 @@ theorem canon_path_root (puny : Str → Str) (quoted sf : Bool) (p : Parsed)
   simp only [canonComps]
   rw [canonPath_render _ _ h]
   simp only [renderSegs, hv, List.isEmpty_nil, if_true]
-  generalize (!p.query.isEmpty || truthy (if sf then none else some p.fragment)) = m
+  generalize hasMore puny sf p = m
   cases quoted <;> cases m <;> decide
+
+/-- non-vacuity of the third way to `"/"` (FX-C02-16f182c): a host ending with a no-break
+space and neither query nor fragment keeps the slash; the same host with a port does not
+need it; a bracketed host ends with `]` -/
+example :
+    let nbsp : Str := "a.com".toList ++ [Char.ofNat 0xa0]
+    let p : Parsed :=
+      { scheme := "http".toList, netloc := nbsp, path := "/".toList, query := [], fragment := [],
+        username := none, password := none, hostname := some nbsp, port := none }
+    hasMore id false p = true ∧ (canonComps id false false p).path = ['/'] ∧
+    hasMore id false { p with netloc := nbsp ++ ":8080".toList, port := some 8080 } = false ∧
+    hasMore id false { p with netloc := nbsp ++ ":80".toList, port := some 80 } = true ∧
+    hasMore id false { p with netloc := '[' :: nbsp ++ [']'] } = false := by
+  decide +kernel
 
 /-- the hypothesis is needed: on a relative path `normpath` cannot pop the first segment -/
 example : pathView (canonPath "a/..".toList false) ≠ pathView "a/..".toList := by decide
